@@ -294,14 +294,82 @@ def rate_sub(chk, rng, w, codes, mode):
     return steps, judge
 
 
+def converter_program(chk, rng, w, wi):
+    """sums / differences of money in two currencies under an active
+    MoneyConverter: the other operand is converted and the result must be
+    rounded exactly once"""
+    MCLS = ["g", "quantity.money:MoneyConverter"]
+    MONEY = ["g", "quantity.money:Money"]
+    curs = ["EUR", "USD", "JPY", "BHD"]
+    base = "EUR"
+    rates = {c: rng.choice([F(2), F(4), F(1, 2), F(8), F(5, 4), F(125),
+                            F(1, 4)]) for c in curs if c != base}
+    pre = [{"e": M(MONEY, "register_currency", ["s", c])} for c in curs]
+    pre.append({"id": "mc", "e": ["c", MCLS, [U(base)]]})
+    pre.append({"e": M(V("mc"), "update", ["none"],
+                       ["l", [["t", [U(c), num(r), ["i", 1]]]
+                              for c, r in rates.items()]])})
+    body = []
+    subs = []
+    for j in range(24):
+        mode = RM.MODES[(wi + j) % 8]
+        a, b = rng.sample(curs, 2)
+        qa, qb = w.quantum_of(a), w.quantum_of(b)
+        xa = (2 * rng.randint(-200, 200) + 1) * qa
+        xb = (2 * rng.randint(-200, 200) + 1) * qb
+        op = rng.choice("+-")
+        k = "m%d." % j
+        body.append({"setmode": mode, "body": [
+            {"id": "a", "k": k + "a", "e": Q(num(xa), a)},
+            {"id": "b", "k": k + "b", "e": Q(num(xb), b)},
+            {"k": k + "x", "e": M(V("mc"), "get_rate", U(b), U(a))},
+            {"k": k + "r", "e": OP(op, V("a"), V("b"))}]})
+        subs.append((k, a, b, op, mode))
+    steps = pre + [{"with": V("mc"), "body": body, "k": "with"}]
+
+    def judge(obs, rec, case):
+        if obs is None:
+            chk.inconclusive_because("converter program died")
+            return
+        for k, a, b, op, mode in subs:
+            xr = parse_rate(obs.get(k + "x"))
+            ao, bo, r = obs.get(k + "a", {}), obs.get(k + "b", {}), \
+                obs.get(k + "r", {})
+            if xr is None or ao.get("k") != "Q" or bo.get("k") != "Q":
+                chk.count("converter operands not constructed")
+                continue
+            conv = val(bo) * xr["rate"]
+            exact = val(ao) + conv if op == "+" else val(ao) - conv
+            qa = w.quantum_of(a)
+            want = RM.round_to(exact, qa, mode)
+            off = (exact / qa).denominator != 1
+            chk.case(("conv-add", a, b, op, str(exact), mode), nontrivial=off)
+            chk.count("op|converter-" + ("add" if op == "+" else "sub"))
+            if off and RM.is_tie(exact, qa):
+                chk.count("converter sums at an exact tie")
+            if r.get("k") != "Q" or r["u"] != a or val(r) != want:
+                chk.violation(
+                    "%s %s %s %s %s under %s with an active converter "
+                    "(reported rate %s): got %s, expected %s %s = exact %s "
+                    "rounded once" % (val(ao), a, op, val(bo), b, mode,
+                                      xr["rate"], brief(r), want, a, exact),
+                    dict(steps=steps, at=k, obs={kk: v for kk, v in
+                                                 obs.items()
+                                                 if kk.startswith(k)}),
+                    "rounded-once")
+    return Case(steps, judge, isolate=True)
+
+
 def run(chk, R, tier, seed):
     rng = random.Random("C05-%d" % seed)
     for mode in RM.MODES:
         for sign in ("pos", "neg"):
             chk.require("mode|%s|tie|%s" % (mode, sign))
             chk.require("mode|%s|notie|%s" % (mode, sign))
-    for op in set(OPS) | {"rate-mul", "rate-div", "rate-rmul"}:
+    for op in set(OPS) | {"rate-mul", "rate-div", "rate-rmul",
+                          "converter-add", "converter-sub"}:
         chk.require("op|" + op)
+    chk.require("converter sums at an exact tie")
     chk.require("ctor events of quantized types", 1000)
     chk.require("worlds")
     table, _ = iso4217.load()
@@ -338,6 +406,9 @@ def run(chk, R, tier, seed):
         run_cases(chk, R, cases, per_program=100, prelude=prelude,
                   on_program=on_program)
         done += m
+    wm = predefined_world({"EUR": 2, "USD": 2, "JPY": 0, "BHD": 3})
+    run_cases(chk, R, [converter_program(chk, rng, wm, i)
+                       for i in range(30 if tier == "quick" else 1500)])
     nw = 40 if tier == "quick" else 1200
     cases = []
     for wi in range(nw):
